@@ -16,7 +16,14 @@ def import_library():
     if REPO not in sys.path:
         sys.path.insert(0, REPO)
     import logging
-    logging.disable(logging.CRITICAL)      # log output is not judged by any property; keep stderr clean
+    # log output is not judged, but code guarded by logger.isEnabledFor(...) must run as it does for users: the library's
+    # logger gets a discarding handler at DEBUG level and does not propagate (stderr stays clean). The CLI check removes
+    # this again and lets the CLI configure logging itself.
+    lg = logging.getLogger("space_packet_parser")
+    if not any(isinstance(h, logging.NullHandler) for h in lg.handlers):
+        lg.addHandler(logging.NullHandler())
+    lg.setLevel(logging.DEBUG)
+    lg.propagate = False
     import space_packet_parser  # noqa: F401
     from space_packet_parser import packets
     got = os.path.realpath(os.path.dirname(os.path.dirname(packets.__file__)))
